@@ -39,6 +39,7 @@ GRADER_MODULES = ('mitxgraders.baseclasses', 'mitxgraders.listgrader', 'mitxgrad
 
 def check(ctx):
     idx = ctx.index
+    _CTX_INDEX[0] = idx
     d1_pipeline(ctx, idx)
     d2_keys(ctx, idx)
     d3_ok_follows_grade(ctx, idx)
@@ -52,6 +53,8 @@ def _literal_set(fi, expr):
     """Set of string constants a name / literal evaluates to (list/tuple/set literal), else None."""
     if isinstance(expr, ast.Name):
         vals = lib.assigned_value(fi.node, expr.id)
+        if not vals and expr.id not in fi.all_params:
+            vals = fi.module.assigns.get(expr.id, [])      # a module-level constant (hoisted literal)
         if len(vals) != 1:
             return None
         expr = vals[0]
@@ -765,14 +768,11 @@ def _eval_ok_map(f):
             e = p.leaf.expr
             if isinstance(e, ast.Constant):
                 val = e.value
-            elif isinstance(e, ast.Call) and nf.callee_name(e) == 'get' and isinstance(e.func.value, ast.Dict) and len(e.args) == 2 \
+            elif isinstance(e, ast.Call) and nf.callee_name(e) == 'get' and len(e.args) == 2 \
                     and isinstance(e.args[0], ast.Name) and e.args[0].id == pname:
-                d = e.func.value
-                tbl = {}
-                for k, v in zip(d.keys, d.values):
-                    if not (isinstance(k, ast.Constant) and isinstance(v, ast.Constant)):
-                        return None
-                    tbl[k.value] = v.value
+                tbl = _ok_table(f, e.func.value)
+                if tbl is None:
+                    return None
                 dflt = nf.const_value(e.args[1], '<?>')
                 val = tbl.get(probe, dflt)
             else:
@@ -780,6 +780,49 @@ def _eval_ok_map(f):
             break
         out[probe] = val
     return out
+
+
+def _ok_table(f, d):
+    """The lookup table of grade_decimal_to_ok as {key: value}: a dict literal, or a module-/class-level constant bound to a
+    closed constant computation (folded by sa.tables: literal, comprehension over literals, bool()/int() of literals)."""
+    from .. import tables
+
+    def fold(t):
+        if t.kind == 'const':
+            return True, t.value
+        if t.kind == 'call' and t.name in ('bool', 'int', 'float') and len(t.args) == 1 and not t.kwargs:
+            ok, v = fold(t.args[0])
+            if ok and isinstance(v, (bool, int, float)):
+                return True, {'bool': bool, 'int': int, 'float': float}[t.name](v)
+        return False, None
+    if isinstance(d, ast.Dict):
+        tbl = {}
+        for k, v in zip(d.keys, d.values):
+            if not (isinstance(k, ast.Constant) and isinstance(v, ast.Constant)):
+                return None
+            tbl[k.value] = v.value
+        return tbl
+    idx = getattr(f, 'index', None) or _CTX_INDEX[0]
+    try:
+        if isinstance(d, ast.Name):
+            t = tables.module_table(idx, f.module.name, d.id)
+        elif isinstance(d, ast.Attribute) and isinstance(d.value, ast.Name) and f.cls is not None:
+            t = tables.class_table(idx, f.cls.qualname, d.attr)
+        else:
+            return None
+    except AnalysisError:
+        return None
+    tbl = {}
+    for k, v in t.items:
+        ok1, kv = fold(k)
+        ok2, vv = fold(v)
+        if not (ok1 and ok2):
+            return None
+        tbl[kv] = vv
+    return tbl
+
+
+_CTX_INDEX = [None]
 
 
 def _eval_guard(g, pname, probe):
